@@ -43,21 +43,46 @@ def is_hot(m, icls):
     return c not in ("Query", "Internal", "Uncallable")
 
 
-def caller_bits(m, role, args):
+CHAIN_ADMIN_ROLE = {"chainA": 4, "chainB": 1}
+# worlds with further appchains whose ids contain separator characters (driver: sep): "org" and "org" + separator + "chainB"
+SEP_TARGETS = [("org:chainB", "svc2", "$ADMS"), ("org-chainB", "svc-2", "$ADMT"), ("org,chainB", "svc2", "$ADMU")]
+
+
+def chain_of(s, chains):
+    """the REGISTERED appchain an id (appchain id, chain:service, chain:rule) belongs to: the longest registered
+    appchain id that is the whole string or is followed by ':' - not the text before the first ':'"""
+    best = None
+    for c in chains:
+        if (s == c or s.startswith(c + ":")) and (best is None or len(c) > len(best)):
+            best = c
+    return best
+
+
+def caller_bits(m, role, args, chains=None, ph=None):
     """x_admin, x_self: the relation of the caller to the target of the call"""
+    chains = chains or CHAIN_ADMIN_ROLE
+    me = ph or ROLE_PH[role]
     admin = role == 2
-    strs = [a[1].replace("$SELF", ROLE_PH[role]) for a in args if a[0] == "s" and isinstance(a[1], str)]
+    strs = [a[1].replace("$SELF", me) for a in args if a[0] == "s" and isinstance(a[1], str)]
     self_ = False
     g = m.guard
     if g["kind"] == "perm" and "PermissionSelf" in g["perms"]:
         if g["impl"] in ("AppchainManager", "ServiceManager", "RuleManager"):
-            tgt = [s for s in strs if s.startswith("chainA") or s.startswith("chainB")]
+            tgt = [chain_of(s, chains) for s in strs if chain_of(s, chains)]
             if tgt:
-                chain = tgt[0].split(":")[0]
-                self_ = (role == 4 and chain == "chainA") or (role == 1 and chain == "chainB")
+                self_ = chains[tgt[0]] == role
         else:
-            self_ = ROLE_PH[role] in strs[:1] or (g["impl"] == "common" and any(s.startswith(ROLE_PH[role] + "-") for s in strs[:1]))
+            self_ = me in strs[:1] or (g["impl"] == "common" and any(s.startswith(me + "-") for s in strs[:1]))
     return admin, self_
+
+
+def hist_ctx(h):
+    """(chain -> role of its admin, role -> sender placeholder, role -> objects of that role) of a history"""
+    t = h.get("sep_target")
+    if not t:
+        return CHAIN_ADMIN_ROLE, {}, OWN_OBJECTS
+    chain, svc, adm = t
+    return {chain: 4, "org": 1}, {1: "$ADMO", 4: adm}, {4: (chain,)}
 
 
 def gen_histories(ctx, methods, icls, nvec, enabled):
@@ -147,6 +172,64 @@ def gen_histories(ctx, methods, icls, nvec, enabled):
                     hists.append(dict(warm=False, audit=audit, zero=False, surface=False,
                                       calls=[dict(c=m.contract, m=m.name, role=4, args=a) for m, a in seq]))
                     index.append([(m, 4, audit, 0, a, True) for m, a in seq])
+    # (c) the contract-to-contract IBTP entry points with WELL-FORMED arguments on a basic world (accepted request
+    #     chainA:svcA -> chainB:svcB index 1 still pending): a marshalled request for a registered pair with the next
+    #     expected index, the receipt of another chain's pending transaction, the broker's entry points for the same pairs
+    hd, em = byname.get(("InterchainManager", "HandleIBTPData")), byname.get(("InterBroker", "EmitInterchain"))
+    ir, ii = byname.get(("InterBroker", "InvokeReceipt")), byname.get(("InterBroker", "InvokeInterchain"))
+    FA, FB = L.FULL_A, L.FULL_B
+    for audit in (False, True):
+        for role in range(len(ROLES)):
+            seq = []
+            if hd is not None:
+                seq += [(hd, [["ibtp", {"from": FB, "to": FA, "index": 1, "type": 0}]]),
+                        (hd, [["ibtp", {"from": FA, "to": FB, "index": 1, "type": 1}]]),
+                        (hd, [["ibtp", {"from": FA, "to": FB, "index": 2, "type": 0}]])]
+            if em is not None:
+                seq += [(em, [["s", FB], ["s", FA], ["s", "f,cb,rb"], ["s", "a"], ["s", "b"], ["s", "c"]]),
+                        (em, [["s", FA], ["s", FB], ["s", "f,cb,rb"], ["s", "a"], ["s", "b"], ["s", "c"]])]
+            if ir is not None:
+                seq += [(ir, [["ibtp", {"from": FA, "to": FB, "index": 1, "type": 1}]])]
+            if ii is not None:
+                seq += [(ii, [["ibtp", {"from": FA, "to": FB, "index": 1, "type": 0, "payload": True}]])]
+            if seq:
+                hists.append(dict(warm=False, audit=audit, zero=False, surface=False,
+                                  calls=[dict(c=m.contract, m=m.name, role=role, args=a) for m, a in seq]))
+                index.append([(m, role, audit, 0, a, True) for m, a in seq])
+    # (d) appchain / service ids that contain separator characters, with another appchain named by the first segment:
+    #     the managers' methods with the target's ids, by every role - role 1 is the admin of appchain "org", role 4 the
+    #     admin of the target appchain "org" + separator + "chainB"; callers the class does not allow go first
+    for audit in (False, True):
+        for chain, svc, adm in SEP_TARGETS:
+            phs = {1: "$ADMO", 4: adm}
+            sid = chain + ":" + svc
+
+            def retarget(a):
+                if a[0] != "s" or not isinstance(a[1], str):
+                    return a
+                table = {"chainA:svcA": sid, "chainB:svcB": sid, "chainA": chain, "chainB": chain, "svcA": svc, "svcB": svc}
+                v = re.sub(r"chain[AB]:svc[AB]|chain[AB]|svc[AB]", lambda mo: table[mo.group(0)], a[1])
+                return [a[0], v]
+            late, early = [], []
+            for m in methods:
+                if m.origin != "own" or m.contract not in ("ServiceManager", "AppchainManager", "RuleManager") or m.contract not in enabled:
+                    continue
+                c_int = icls.get(m.key(), "")
+                if c_int in ("Query", "Uncallable", ""):
+                    continue
+                legit = {"AdminOnly": [2], "ChainAdminOnly": [4], "ChainAdminOrAdmin": [4, 2], "SelfOnly": [2, 3], "SelfOrAdmin": [2, 3]}.get(c_int, [])
+                for role in range(len(ROLES)):
+                    a = [retarget(x) for x in L.well_typed_args(m, 0, r)]
+                    if not any(x[0] == "s" and isinstance(x[1], str) and chain in x[1] for x in a):
+                        continue
+                    call = dict(c=m.contract, m=m.name, role=role, args=a)
+                    if role in phs:
+                        call["as"] = phs[role]
+                    (late if role in legit else early).append((call, (m, role, audit, 0, a, True)))
+            seq = early + late
+            if seq:
+                hists.append(dict(warm=False, sep=True, sep_target=[chain, svc, adm], audit=audit, zero=False, surface=False, calls=[c for c, _ in seq]))
+                index.append([e for _, e in seq])
     # an unknown method and an unknown contract method name
     hists.append(dict(audit=False, zero=False, surface=True,
                       calls=[dict(c="Store", m="NoSuchMethod", role=0, args=[]), dict(c="Governance", m="vote", role=2, args=[])]))
@@ -154,14 +237,15 @@ def gen_histories(ctx, methods, icls, nvec, enabled):
     return hists, index
 
 
-PARTIES = ["$OUT", "$ADMB", "$GOV0", "$GOV1", "$NODE", "$ADMA", "$NEW", "$ADMC", "$WARMROLE", "$ZNEW", "$ZROLE"]
+PARTIES = ["$OUT", "$ADMB", "$GOV0", "$GOV1", "$NODE", "$ADMA", "$NEW", "$ADMC", "$WARMROLE", "$ZNEW", "$ZROLE", "$ADMO", "$ADMS", "$ADMT", "$ADMU"]
 OWN_OBJECTS = {4: ("chainA", "svcA"), 1: ("chainB", "svcB")}
 
 
-def foreign_entries(role, o, created=()):
+def foreign_entries(role, o, created=(), own=None, own_objects=None):
     """existing records (op set/del, not new) whose key names - in the canonical spelling - another party than the
     caller or an object of another party; returned as (contract, key prefix up to the first name)"""
-    own = ROLE_PH[role]
+    own = own or ROLE_PH[role]
+    own_objects = OWN_OBJECTS if own_objects is None else own_objects
     out = []
     for d in o.get("diff", []):
         if len(d) < 3 or d[2] == "new":
@@ -171,12 +255,12 @@ def foreign_entries(role, o, created=()):
             continue      # a record this caller created earlier in the same history is its own
         toks = [m.group(1) for m in re.finditer(r"(\$[A-Z0-9]+)(?![A-Z0-9~])", key)]
         hit = any(t in PARTIES and t != own for t in toks)
-        for r_, objs in OWN_OBJECTS.items():
+        for r_, objs in own_objects.items():
             if r_ != role and any(x in key for x in objs):
                 hit = True
         if hit:
             cut = len(key)
-            for mark in ["$"] + [x for objs in OWN_OBJECTS.values() for x in objs]:
+            for mark in ["$"] + [x for objs in own_objects.values() for x in objs]:
                 i = key.find(mark)
                 if i >= 0:
                     cut = min(cut, i)
@@ -184,7 +268,7 @@ def foreign_entries(role, o, created=()):
     return sorted(set(out))
 
 
-def case_literal(contract, method, typed, admin, self_, o, role=0, created=()):
+def case_literal(contract, method, typed, admin, self_, o, role=0, created=(), own=None, own_objects=None):
     diff = [d[0] for d in o.get("diff", [])]
     err = o.get("err", "")
     crash = bool(o.get("crash"))
@@ -193,7 +277,7 @@ def case_literal(contract, method, typed, admin, self_, o, role=0, created=()):
             "c_obs := {| o_ok := %s; o_err := %d; o_diff := %s; o_acct := %d; o_mem := %s; o_cache := %s; o_crash := %s; o_foreign := %s |} |}"
             % (gstr(contract), gstr(method), gbool(typed), gbool(admin), gbool(self_), gbool(o.get("ok", False)), e,
                glist(diff, gstr), len(o.get("acct", [])), gbool(o.get("mem", False)), gbool(o.get("cache", False)), gbool(crash),
-               glist(foreign_entries(role, o, created), lambda p: "(%s, %s)" % (gstr(p[0]), gstr(p[1])))))
+               glist(foreign_entries(role, o, created, own, own_objects), lambda p: "(%s, %s)" % (gstr(p[0]), gstr(p[1])))))
 
 
 def cfg_current_literal(known):
@@ -340,6 +424,7 @@ def run(ctx):
             ctx.broken("driver:surface", "history %d: %d results for %d calls" % (hn, len(cs), len(ix)))
             continue
         created = {}
+        chains, phs, objs = hist_ctx(h)
         for cn, (entry, ob) in enumerate(zip(ix, cs)):
             m, role, audit, vec, args, typed = entry
             mine = frozenset(created.get(role, ()))
@@ -348,10 +433,10 @@ def run(ctx):
                 ctx.broken("driver:surface", "call not run: %s %s" % (h["calls"][cn], ob.get("err")))
                 continue
             if m is None:
-                lit = case_literal(h["calls"][cn]["c"], h["calls"][cn]["m"], typed, role == 2, False, ob, role, mine)
+                lit = case_literal(h["calls"][cn]["c"], h["calls"][cn]["m"], typed, role == 2, False, ob, role, mine, phs.get(role), objs)
             else:
-                admin, self_ = caller_bits(m, role, args)
-                lit = case_literal(m.contract, m.name, typed, admin, self_, ob, role, mine)
+                admin, self_ = caller_bits(m, role, args, chains, phs.get(role))
+                lit = case_literal(m.contract, m.name, typed, admin, self_, ob, role, mine, phs.get(role), objs)
             rows.append((hn, cn, entry, ob, lit))
     verdicts = judge(ctx, [r[4] for r in rows], known)
     dist = {}
@@ -369,7 +454,7 @@ def run(ctx):
             if v[0] == 0:
                 continue
             what = describe(entry, ob)
-            rep = dict(property="C17", driver="surface", history=dict(warm=hists[hn].get("warm", False), zswitch=hists[hn].get("zswitch", False), audit=hists[hn].get("audit", False), zero=hists[hn].get("zero", False),
+            rep = dict(property="C17", driver="surface", history=dict(warm=hists[hn].get("warm", False), zswitch=hists[hn].get("zswitch", False), sep=hists[hn].get("sep", False), sep_target=hists[hn].get("sep_target"), audit=hists[hn].get("audit", False), zero=hists[hn].get("zero", False),
                                                                         surface=False, calls=hists[hn]["calls"][:cn + 1]),
                        failing_call=cn, obs=ob, verdict=v, what=what)
             if v[0] == 2:
@@ -403,15 +488,16 @@ def run_one(ctx, exe, hist, known, bykey):
     res = []
     lits = []
     created = {}
+    chains, phs, objs = hist_ctx(hist)
     for c, ob in zip(hist["calls"], outs[0]["calls"]):
         mine = frozenset(created.get(c["role"], ()))
         created.setdefault(c["role"], set()).update((d[0], d[1]) for d in ob.get("diff", []) if len(d) >= 3 and d[2] == "new")
         m = bykey.get((c["c"], c["m"]))
         if m is None:
-            lit = case_literal(c["c"], c["m"], True, c["role"] == 2, False, ob, c["role"], mine)
+            lit = case_literal(c["c"], c["m"], True, c["role"] == 2, False, ob, c["role"], mine, phs.get(c["role"]), objs)
         else:
-            admin, self_ = caller_bits(m, c["role"], c["args"])
-            lit = case_literal(m.contract, m.name, c.get("typed", not any(p.startswith("other:") for p in m.params)), admin, self_, ob, c["role"], mine)
+            admin, self_ = caller_bits(m, c["role"], c["args"], chains, phs.get(c["role"]))
+            lit = case_literal(m.contract, m.name, c.get("typed", not any(p.startswith("other:") for p in m.params)), admin, self_, ob, c["role"], mine, phs.get(c["role"]), objs)
         lits.append(lit)
         res.append(ob)
     vs = judge(ctx, lits, known, tag="C17r")
